@@ -53,7 +53,7 @@ def _work(job):
     rep = None
     if mm:
         rep = {"kind": "aave_path", "scenario": scn, "events": [s[0] for s in steps[:at + 1]], "read_mode": mode,
-               "failed_step": at, "spec_state": steps[at][3] if at >= 0 else None,
+               "failed_step": at, "spec_state": steps[at][3] if at >= 0 else None, "lvl2": "DAI" in uni.tokens,
                "mismatches": [repr(m) for m in mm]}
     sample = {"scenario": [aave_drv.fmt_ev(e) + ":" + e["op"] for e in scn],
               "events": [e["op"] + aave_drv.fmt_ev(e) + "->" + o for e, o, *_ in steps]}
@@ -257,7 +257,8 @@ def replay(chk: Check, path: str, owner: str) -> int:
     from . import aave_drv
     rep = json.load(open(path))["replay"]
     scn, events = rep["scenario"], rep["events"]
-    lvl2 = any(e.get("t") == "DAI" or e.get("with") == "DAI" for e in scn + events)
+    lvl2 = rep.get("lvl2", any(e.get("t") == "DAI" or e.get("with") == "DAI" for e in scn + events)
+                   or any(e.get("op") == "nextbar" and e.get("row", 0) > 8 for e in events))
     f = chk.tmp / "probes.ndjson"
     f.write_text(json.dumps({"kind": "path", "scn": scn, "events": events}) + "\n")
     tla = VERIF / "spec" / "trace" / "Trace_AaveProbe.tla"
